@@ -968,7 +968,7 @@ func pick[T any](rng *rand.Rand, xs ...T) T { return xs[rng.Intn(len(xs))] }
 func bigPow2(k uint) *big.Int { return new(big.Int).Lsh(big.NewInt(1), k) }
 
 func (txcacheComp) Gen(rng *rand.Rand, tier string) [][]string {
-	nh := 300
+	nh := 1000
 	steps := 50
 	if tier == "thorough" {
 		nh = 4000
